@@ -183,10 +183,10 @@ def scopes_at(nested, path, world, env, r, nsamples):
 
 
 def judge(ns, res, nested, exprs, world, r, mname, m, path, node, origin,
-          nassign):
+          nassign, filtered=False):
     """All proposals of mutator m at the term position ``path``."""
     try:
-        if hasattr(m, 'filter') and not m.filter(node):
+        if not filtered and hasattr(m, 'filter') and not m.filter(node):
             return
         props = list(m.mutations(node))
     except Exception as e:  # noqa
@@ -326,11 +326,30 @@ def check_script(ns, res, r, nested, paths, origin, nassign):
     ns.smtlib.collect_information(exprs)
     world = evalsmt.World(nested)
     muts = mutators(ns)
-    for path in paths:
-        node = node_at(exprs, path)
+    if r.random() < 0.5:
+        # the calling pattern of strategy ddmin: a mutator instance is first
+        # asked to filter all nodes of a subset and only then for the
+        # mutations of each of them (hierarchical asks node by node)
+        res.count('scripts_in_ddmin_calling_pattern')
         for mname, m in muts:
-            judge(ns, res, nested, exprs, world, r, mname, m, tuple(path),
-                  node, origin, nassign)
+            accepted = []
+            for path in paths:
+                node = node_at(exprs, path)
+                try:
+                    if not hasattr(m, 'filter') or m.filter(node):
+                        accepted.append((path, node))
+                except Exception as e:  # noqa
+                    res.count('proposals_with_exceptions')
+                    res.add_set('exceptions', f'{mname}:{type(e).__name__}')
+            for path, node in accepted:
+                judge(ns, res, nested, exprs, world, r, mname, m,
+                      tuple(path), node, origin, nassign, filtered=True)
+    else:
+        for path in paths:
+            node = node_at(exprs, path)
+            for mname, m in muts:
+                judge(ns, res, nested, exprs, world, r, mname, m,
+                      tuple(path), node, origin, nassign)
     # BVMergeReducedBW rewrites a definition: compare the defined values
     m = ns.mutators_bv.BVMergeReducedBW()
     for ci, c in enumerate(nested):
